@@ -32,6 +32,7 @@ partial def jTy (j : Json) : Ty :=
   | "int" => .prim .int
   | "str" => .prim .str
   | "bool" => .prim .bool
+  | "dt" => .prim .str      -- DateTime out-header member: the kind is irrelevant to the encoder
   | _ => .obj (jNat (fld j "cid")) ((jArr (fld j "fields")).map jFld)
 where
   jFld (f : Json) : Fld :=
@@ -53,6 +54,8 @@ def leafJson : Leaf → Json
   | .int i => Json.mkObj [("i", Json.str (toString i))]
   | .str s => Json.mkObj [("s", textJson s)]
   | .bool b => Json.mkObj [("b", Json.bool b)]
+  | .dt x => Json.mkObj [("dt", Json.arr #[x.date.y, x.date.m, x.date.d, x.time.h, x.time.mi, x.time.s, x.time.us,
+      match x.tz with | none => Json.null | some m => Json.num (JsonNumber.fromInt m)])]
 
 partial def nodeJson : Node → Json
   | .none => .null
@@ -61,10 +64,17 @@ partial def nodeJson : Node → Json
   | .obj attrs => Json.mkObj [("o", Json.arr (attrs.map (fun kv => Json.arr #[textJson kv.1, nodeJson kv.2])).toArray)]
   | .arr _ items => Json.mkObj [("l", Json.arr (items.map nodeJson).toArray)]
 
+def jDt (a : Array Json) : DateTime :=
+  let n (i : Nat) : Nat := match a[i]? with | some j => (j.getNat?.toOption.getD 0) | none => 0
+  ⟨⟨n 0, n 1, n 2⟩, ⟨n 3, n 4, n 5, n 6⟩, match a[7]? with | some (Json.num k) => some k.mantissa | _ => none⟩
+
 def jLeaf (j : Json) : Leaf :=
   match j with
   | .null => .none
   | _ =>
+    match j.getObjVal? "dt" with
+    | .ok (.arr a) => .dt (jDt a)
+    | _ =>
     match j.getObjVal? "i" with
     | .ok (.str s) => .int (s.toInt?.getD 0)
     | _ =>
@@ -128,6 +138,7 @@ def step (j : Json) : Json :=
     Json.arr ((stiFields (jText (fld j "delim")) [] (jFields (fld j "fields"))).map (fun kv =>
       Json.arr #[textJson kv.1, Json.arr (kv.2.path.map textJson).toArray,
         Json.bool kv.2.prim.isNone, Json.bool kv.2.many])).toArray
+  | "hdr.date" => textJson (httpDate (jDt (getArr j "v")))
   | "qs.parse" => docJson (parseQs F (jText (fld j "qs")))
   | "qs.quote" => textJson (quote (jText (fld j "s")))
   | "qs.unquote" => textJson (unquote (jText (fld j "s")))
